@@ -103,6 +103,10 @@ def run(ctx: Ctx):
     )
     ctx.guarded(update_degree, ctx)
     ctx.guarded(accept_guarded, ctx)
+    from .affine import block_independent
+
+    res.rule("BLOCK-INDEPENDENT", "the HALS NNLS inner solver's row update is an exact coordinate minimisation: in the affine-form domain of rules/affine.py the stored row does not depend on the old row after cancellation, for every combination of the sparsity / ridge coefficients (a damped step can increase the penalised objective)", floor=4)
+    ctx.guarded(block_independent, ctx, "BLOCK-INDEPENDENT", "tensorly.solvers.nnls.hals_nnls", "V", ["sparsity_coefficient is not None", "ridge_coefficient is not None"])
 
 
 def update_degree(ctx: Ctx):
